@@ -64,7 +64,7 @@ package certgen
 //@   requires parsedKeyShape(pub)        #C10.parsed-shape @C10
 //@   ensures ret1 == nil                    #C10.no-error @C10
 //@   ensures ret0 ==> strongKey(pub)        #C10.strong @C10
-//@   ensures strongKey(pub) ==> ret0        #C10.served @C10
+//@   ensures strongKey(pub) ==> ret0        #C10.served @C10,C19
 //@   modifies nothing
 
 // exported helper that signs the key SSSD has on file; no keymasterd route (and nothing outside the tests) calls it
